@@ -74,7 +74,7 @@ theorem deque_end_to_end (c : Ctx) (rec : Rec) (sv : Val) (id : Nat) (tps : List
     (hlen : assumeScalarNumber sv "len" = some (n : Int)) (hn : (n : Int) ≤ LEN_GUARD)
     (hel : c.size inner = some el) (hel0 : 0 < el)
     (hcap : extractCapacity c.ver sv = some cap) (hcg : CapWithinGuard cap) (hc0 : 0 < cap) (hnc : n ≤ cap)
-    (hhead : assumeScalarNumber sv "head" = some (head : Int))
+    (hhead : assumeScalarNumber sv "head" = some (head : Int)) (hh64 : head < 2 ^ 64)
     (hp : assumePointer sv "pointer" = some p)
     (hrd : c.rd p (cap * el) = some buf) (hbuf : buf.length = cap * el)
     (hil : items.length = n)
@@ -90,7 +90,9 @@ theorem deque_end_to_end (c : Ctx) (rec : Rec) (sv : Val) (id : Nat) (tps : List
     simp [this]
   have hz : ¬ (el = 0) := by omega
   have hnn : ¬ ((n : Int) < 0) := by omega
-  have hhn : ¬ ((head : Int) < 0) := by omega
+  have hhn : (((head : Int) % ((2 ^ 64 : Nat) : Int)).toNat) = head := by
+    have : (head : Int) % ((2 ^ 64 : Nat) : Int) = (head : Int) := Int.emod_eq_of_lt (by omega) (by exact_mod_cast hh64)
+    rw [this, Int.toNat_natCast]
   have hslots := ringIdx_spec cap head n hc0 hnc
   have hps : parseSlots rec inner el p buf (ringIdx cap head n) = some items := by
     rw [hslots]
